@@ -63,3 +63,100 @@ Section Locality.
     apply nth_error_None in E2. lia.
   Qed.
 End Locality.
+
+(* ---- batch grouping: every item goes to the group of its owner, once, in batch order; one group per owner ---- *)
+Fixpoint glook (o : N) (gs : list (N * list (list N))) : option (list (list N)) :=
+  match gs with [] => None | (o', g) :: t => if o' =? o then Some g else glook o t end.
+
+Lemma glook_add_same o it gs :
+  glook o (add_to_group o it gs) = Some (match glook o gs with Some g => g ++ [it] | None => [it] end).
+Proof.
+  induction gs as [|[o' g] t IH]; simpl; [rewrite N.eqb_refl; reflexivity|].
+  destruct (o' =? o) eqn:E; simpl; rewrite E; auto.
+Qed.
+Lemma glook_add_other o o1 it gs : o1 <> o -> glook o1 (add_to_group o it gs) = glook o1 gs.
+Proof.
+  intros Hne. induction gs as [|[o' g] t IH]; simpl.
+  - destruct (N.eqb_spec o o1); [congruence|reflexivity].
+  - destruct (N.eqb_spec o' o) as [->|Hn]; simpl.
+    + destruct (N.eqb_spec o o1); [congruence|reflexivity].
+    + destruct (o' =? o1); auto.
+Qed.
+Lemma add_keys_in o it gs x : In x (map fst (add_to_group o it gs)) <-> x = o \/ In x (map fst gs).
+Proof.
+  induction gs as [|[o' g] t IH]; simpl; [intuition|].
+  destruct (N.eqb_spec o' o) as [->|Hn]; simpl; [intuition|]. rewrite IH. intuition.
+Qed.
+Lemma add_keys_nodup o it gs : NoDup (map fst gs) -> NoDup (map fst (add_to_group o it gs)).
+Proof.
+  induction gs as [|[o' g] t IH]; simpl; intros ND; [repeat constructor; auto|].
+  inversion ND as [|? ? Hnin ND']; subst. destruct (N.eqb_spec o' o) as [->|Hn]; simpl; [constructor; auto|].
+  constructor; [|auto]. rewrite add_keys_in. intros [E|H]; [congruence|auto].
+Qed.
+Lemma glook_in o g gs : NoDup (map fst gs) -> (In (o, g) gs <-> glook o gs = Some g).
+Proof.
+  induction gs as [|[o' g'] t IH]; simpl; intros ND; [split; [tauto|discriminate]|].
+  inversion ND as [|? ? Hnin ND']; subst. destruct (N.eqb_spec o' o) as [->|Hn].
+  - split; [intros [H|H]; [congruence|]|intros H; left; congruence].
+    exfalso. apply Hnin. apply in_map_iff. exists (o, g). auto.
+  - rewrite <- (IH ND'). split; [intros [H|H]; [congruence|auto]|auto].
+Qed.
+
+Section Group.
+  Variable p : path.
+  Variable n : N.
+  Let own := owned_by p n.
+  Definition spec_group (o : N) (l : list (list N)) : option (list (list N)) :=
+    match filter (own o) l with [] => None | g => Some g end.
+  Definition GI (l : list (list N)) (gs : list (N * list (list N))) : Prop :=
+    NoDup (map fst gs) /\ forall o, glook o gs = spec_group o l.
+
+  Lemma own_true o it : own o it = true <-> owner p it n = Some o.
+  Proof.
+    unfold own, owned_by. destruct (owner p it n) as [o'|]; split; intros H; try discriminate.
+    - apply N.eqb_eq in H. subst. reflexivity.
+    - injection H as ->. apply N.eqb_refl.
+  Qed.
+  Lemma GI_step l gs x ox : GI l gs -> owner p x n = Some ox -> GI (l ++ [x]) (add_to_group ox x gs).
+  Proof.
+    intros [ND G] Hx. split; [apply add_keys_nodup; auto|]. intros o. unfold spec_group. rewrite filter_app. simpl.
+    destruct (N.eq_dec o ox) as [->|Hne].
+    - rewrite glook_add_same, G. unfold spec_group. rewrite (proj2 (own_true ox x) Hx).
+      destruct (filter (own ox) l) as [|a t]; reflexivity.
+    - rewrite glook_add_other by auto. rewrite G. unfold spec_group.
+      destruct (own o x) eqn:E; [apply own_true in E; congruence|]. rewrite app_nil_r. reflexivity.
+  Qed.
+  Lemma GI_fold (Hn : 0 < n) items : forall l gs, GI l gs ->
+    exists gs', fold_left (fun acc it => match acc, owner p it n with
+                                         | Some gs, Some o => Some (add_to_group o it gs) | _, _ => None end) items (Some gs) = Some gs' /\
+                GI (l ++ items) gs'.
+  Proof.
+    induction items as [|x t IH]; intros l gs H; simpl.
+    - exists gs. rewrite app_nil_r. auto.
+    - destruct (owner_total p x n Hn) as (ox & Ex & _). rewrite Ex.
+      destruct (IH (l ++ [x]) _ (GI_step l gs x ox H Ex)) as (gs' & F & G'). exists gs'. rewrite <- app_assoc in G'. auto.
+  Qed.
+
+  (* the groups are exactly the non-empty owner classes of the batch, each in batch order, one per owner: every item is
+     handed to one worker - its owner's - and to no other *)
+  Theorem group_batch_spec items : 0 < n ->
+    exists gs, group_batch p n items = Some gs /\ NoDup (map fst gs) /\
+      (forall o g, In (o, g) gs <-> g <> [] /\ g = filter (own o) items) /\
+      (forall it, In it items -> exists o g, owner p it n = Some o /\ In (o, g) gs /\ In it g) /\
+      (forall o g it, In (o, g) gs -> In it g -> In it items /\ owner p it n = Some o).
+  Proof.
+    intros Hn. destruct (GI_fold Hn items [] []) as (gs & F & ND & G).
+    { split; [constructor|]. intros o. reflexivity. }
+    simpl in G. exists gs. split; [exact F|]. split; [exact ND|].
+    assert (Char : forall o g, In (o, g) gs <-> g <> [] /\ g = filter (own o) items).
+    { intros o g. rewrite (glook_in o g gs ND), G. unfold spec_group. destruct (filter (own o) items) as [|a t] eqn:E.
+      - split; [discriminate|]. intros [H1 H2]. congruence.
+      - split; [intros H; injection H as <-; split; [discriminate|reflexivity]|intros [_ ->]; reflexivity]. }
+    split; [exact Char|]. split.
+    - intros it Hit. destruct (owner_total p it n Hn) as (o & Eo & _). exists o, (filter (own o) items).
+      assert (Hin : In it (filter (own o) items)) by (apply filter_In; split; auto; apply own_true; auto).
+      split; auto. split; auto. apply Char. split; auto. intros E. rewrite E in Hin. destruct Hin.
+    - intros o g it Hg Hit. apply Char in Hg. destruct Hg as [_ ->]. apply filter_In in Hit. destruct Hit as [H1 H2].
+      split; auto. apply own_true; auto.
+  Qed.
+End Group.
